@@ -39,6 +39,8 @@
 #include "manifest_parser.h"
 #include "state.h"
 #include "status.h"
+#include "debug_flags.h"
+#include "explanations.h"
 #include "util.h"
 
 using std::string;
@@ -184,13 +186,21 @@ struct RecStatus : public Status {
   static string E(const Edge* e) { return e->outputs_.empty() ? "-" : hex(e->outputs_[0]->path()); }
   void EdgeAddedToPlan(const Edge* e) override { ++added; out->push_back("st added " + E(e)); }
   void EdgeRemovedFromPlan(const Edge* e) override { ++removed; out->push_back("st removed " + E(e)); }
-  void BuildEdgeStarted(const Edge* e, int64_t) override { ++started; out->push_back("st started " + E(e)); }
+  Explanations* expl = nullptr;
+  void BuildEdgeStarted(const Edge* e, int64_t) override {
+    ++started; out->push_back("st started " + E(e));
+    if (expl) {   // debugging aid (VERIF_EXPLAIN=1): why ninja thinks this edge has to run
+      vector<string> why;
+      for (Node* o : e->outputs_) expl->LookupAndAppend(o, &why);
+      for (auto& w : why) out->push_back("ex " + hex(w));
+    }
+  }
   void BuildEdgeFinished(Edge* e, int64_t, int64_t, ExitStatus code, const string& output) override {
     ++finished; out->push_back("st finished " + E(e) + " " + std::to_string((int)code) + " " + hex(output));
   }
   void BuildStarted() override { out->push_back("st buildstarted"); }
   void BuildFinished() override { out->push_back("st buildfinished"); }
-  void SetExplanations(Explanations*) override {}
+  void SetExplanations(Explanations* e) override { expl = e; }
   void NewLine() override {}
   void Info(const char* msg, ...) override { Rec("info", msg); }
   void Warning(const char* msg, ...) override { Rec("warning", msg); }
@@ -787,6 +797,7 @@ void CrashDump(int sig) {
 }
 
 int run_engine(int, char**) {
+  if (getenv("VERIF_EXPLAIN")) g_explaining = true;
   string line;
   std::unique_ptr<Scenario> sc;
   vector<string> ev;
